@@ -18,8 +18,8 @@ PROP = Prop(
          "MessageV0/V1, Header, StickyMemberMetadata, the key/value and member metadata types 0..6, 32767 and -1). Byte strings: "
          "structure-aware (AppendTo of a reflection-filled value: nil/empty, boundary ints, compact-length boundaries, unknown tags) "
          "then 80% mutated 1-3 times (truncate, bit flip, boundary byte, insert, delete, boundary int32 window, junk suffix, 1- and "
-         "2-byte varint overwrite), 10% valid, 10% arbitrary 3..14 bytes; the empty input; 1-byte inputs (all 256 per type-version "
-         "in the thorough tier); two deliberate huge-tag-count messages. Inputs on which the decoder keeps looping over a tag count "
+         "2-byte varint overwrite), 10% valid, 10% arbitrary 3..14 bytes; the empty input; a sample of 1-byte inputs per type-version "
+         "(all 256 for three representative types in the thorough tier); two deliberate huge-tag-count messages. Inputs on which the decoder keeps looping over a tag count "
          "taken from the input (pre-screened with a 40 ms deadline) are kept only up to a quota of 3 per run. non-trivial = input "
          "longer than 2 bytes. distinct = distinct op lines.",
     trusted_base=["tools/krammar/krammar.py + Model/C15.lean (schema interpreter) as in C15; the differential run ties `dec` to ReadFrom: same "
@@ -32,9 +32,8 @@ PROP = Prop(
                   "Lean compiler/runtime for the driver"],
     assumptions=["'memory within a constant factor' is checked as deepSize(value) <= 4 KiB + 1024 * len(input) (observed maximum ratio is "
                  "reported in the distribution)",
-                 "time is not part of C16's text: inputs whose tag count keeps internalReadTags looping (model: spin > 10^5 iterations) are "
-                 "accepted as `err` or `hang` and counted in the distribution as dec.outcome.hang(tag-count-unbounded-loop); "
-                 "Props.C16.tag_loop_steps_unbounded proves the step bound false (DESIGN 8-i, C22's concern)"],
+                 "a call that exceeds its 1.5 s deadline is reported as `hang` and counted as a violation (since /repo 994d56c the tag loops stop "
+                 "on a failed reader; Props.C16.tag_loop_steps_linear proves the iteration bound for the loop as the code runs it)"],
     partial="reencode_stable_partial: decode(encode(decode b)) = decode b is proved under the extra hypothesis that the decoded value is in "
             "the encoder's domain (enc = some bs; i.e. lengths below the prefix limits and re-encoded tag payloads below 2^32, which decoded "
             "values satisfy but which is not proved generically). The key lemma (every decoded value is already in normal form) is proved "
@@ -48,15 +47,15 @@ MANIFEST = {
             "bytes, that no allocation request exceeds the input length, that the number of nodes of a decoded value (array slots, fields, unknown "
             "tags) is at most weight(schema type) * (|input|+1) (using the per-version well-formedness of the regenerated schema: every array "
             "element occupies >= 1 byte), that a decoded value is already in normal form and (under an encodability hypothesis, partial) that "
-            "re-encoding and decoding it again returns it unchanged. The tag-count loop is modelled as the code runs it with a step counter: "
-            "its iteration count equals the count read from the input (so a linear step bound is false: proved), an invalidated reader stays "
-            "invalidated, and the early-exit model agrees with the loop. A differential run (mutational + structure-aware bytes, every type and "
+            "re-encoding and decoding it again returns it unchanged. The tag-count loop (internalReadTags/ReadTags/SkipTags, count from the input, "
+            "b.Ok() tested before every iteration since /repo 994d56c) is modelled as the code runs it with a step counter: iterations <= |input|+1 "
+            "(proved), an invalidated reader ends the loop, and the early-exit model agrees with the loop. A differential run (mutational + structure-aware bytes, every type and "
             "version, ReadFrom and UnsafeReadFrom under recover/deadline) ties the model to the Go decoders and evaluates the property text on "
             "their output: no panic, reachable memory <= 4 KiB + 1024*|input|, re-encode + decode stable.",
     "note": "Trusted: as C15, plus the early-exit modelling decision outside the tag loop and deepSize() as the memory measure on the Go side (the "
             "theorem counts value-tree nodes; bytes per node are the Go struct sizes, observed max 64 bytes of value per input byte). Re-encode stability "
-            "is proved modulo encodability of decoded values (partial) and tested on every op. The unbounded tag-count loop (time) is recorded, not counted "
-            "as a C16 violation.",
+            "is proved modulo encodability of decoded values (partial) and tested on every op. A decode call exceeding its deadline is a violation (`hang`); before /repo 994d56c ~0.3% of mutated flexible "
+            "inputs made internalReadTags spin for up to 2^32 iterations, which this check recorded as the hang class tag-count-unbounded-loop.",
     "technique": "Lean 4 proof (totality of the generic schema decoder by mutual induction; step-counting model of the tag loop) with a "
                  "differential fuzz run against ReadFrom/UnsafeReadFrom of every generated type and version",
 }
